@@ -332,6 +332,17 @@ def run_check(pid, tier, seed, budget_s=None, workers=None, digests_out=None, st
     return exit_code
 
 
+def _git_head(root):
+    import subprocess
+
+    try:
+        h = subprocess.run(["git", "-C", root, "rev-parse", "--short", "HEAD"], capture_output=True, text=True, timeout=10).stdout.strip()
+        d = subprocess.run(["git", "-C", root, "status", "--porcelain", "--untracked-files=no"], capture_output=True, text=True, timeout=10).stdout.strip()
+        return (h or "no-git") + ("+dirty" if d else "")
+    except Exception:
+        return "unknown"
+
+
 def evidence_doc(chk, tier, seed, agg, wall, reported, truncated, planned, workers):
     cov = {
         "evaluations": int(agg.evals),
@@ -358,6 +369,8 @@ def evidence_doc(chk, tier, seed, agg, wall, reported, truncated, planned, worke
         "workers": workers,
         "exhaustive": bool(getattr(chk, "exhaustive", {}).get(tier, False)) and not truncated,
         "harness_errors": len(agg.errors),
+        "repo_under_test": core.repo_root(),
+        "repo_head": _git_head(core.repo_root()),
     }
     extra = getattr(chk, "extra_evidence", None)
     if extra:
